@@ -49,12 +49,14 @@ package parser
 //@ safety
 //@ requires PInv(p) && tokOK(p.l, got)
 //@ ensures[C20.parser.inv] PInv(p)
+//@ ensures[C03.err.set] p.err != nil
 
 //@ func (*Parser).setTokenError
 //@ props C20 C03
 //@ safety
 //@ requires PInv(p) && tokOK(p.l, t)
 //@ ensures[C20.parser.inv] PInv(p)
+//@ ensures[C03.err.set] p.err != nil && result == nil
 
 //@ func (*Parser).illegalToken
 //@ props C20 C03
@@ -68,6 +70,7 @@ package parser
 //@ requires PInv(p)
 //@ assume[src.nul] len(p.l.characters) > 0 ==> p.l.characters[0] != 0 && (p.l.prevToken.Type == "EOF" ==> p.l.position >= 1)
 //@ ensures[C20.parser.inv] PInv(p)
+//@ ensures[C03.err.set] !result ==> p.err != nil
 
 // ---- C03: a statement is either absent (nil interface) or a real node: never a typed nil pointer ----------
 //@ func (*Parser).parseStatement
@@ -91,6 +94,7 @@ package parser
 //@ modcomps H_ E_ MD_ MV_ G_ C_
 //@ ensures result == nil || ref(result) != nil
 //@ ensures old(PInv(p)) ==> PInv(p)
+//@ ensures old(p.err) != nil ==> p.err != nil
 //@ assume[recv.nonnil] p != nil
 //@ ensures[C03.parser.depth.restore] p.depth == old(p.depth)
 
@@ -165,11 +169,18 @@ package parser
 //@ ghostensures result != nil ==> uf("parsedAt", int, result) == precedence
 //@ ensures old(PInv(p)) ==> PInv(p)
 //@ ensures result == nil || ref(result) != nil
+//@ ensures old(p.err) != nil ==> p.err != nil
+
+// The first error is kept ("errors are sticky", assumed above of the two trusted dispatchers): the only writers of
+// Parser.err are setError, peekError, noPrefixParseFnError and nextToken, and each leaves an error that is already
+// recorded alone (nextToken: proved, C20.next.stuck; the other three return at once when p.err != nil).
+//@ scan[C03.err.writers] C03 fieldwriters Parser.err: setError peekError nextToken noPrefixParseFnError
 
 // An infix operator parses its right operand at exactly its own binding power (so equal powers associate to the
 // left) and builds Infix(left, operator literal, right) in that order.
 //@ func (*Parser).parseInfixExpr
 //@ props C01 C20
+//@ assume[params.wf] leftNode == nil || ref(leftNode) != nil
 //@ callpre[C20.layout.newline] parseExpression: p.err != nil || p.curToken.Type != token.NEWLINE
 //@ requires p != nil
 //@ nocontract nextToken setTokenError
@@ -235,6 +246,7 @@ package parser
 //@ props C03
 //@ trusted callpre
 //@ assume[recv.nonnil] p != nil
+//@ assume[params.wf] leftNode == nil || ref(leftNode) != nil
 //@ callpre[C03.ast.nonnil] NewIndex: arg1 != nil && arg2 != nil
 //@ callpre[C03.ast.nonnil] NewSlice: arg1 != nil
 
